@@ -6,12 +6,14 @@ specification's.
 -/
 import Mqtt.Driver.AckQ
 import Mqtt.Driver.Topics
+import Mqtt.Driver.Broker
 
 namespace Mqtt.Driver
 
 structure DState where
   ackq : AckQ.St := AckQ.St.init
   topics : Topics.St := Topics.St.init
+  broker : Broker.St := {}
 
 def dispatch (st : DState) (line : String) : DState × String × String :=
   match words line with
@@ -21,6 +23,9 @@ def dispatch (st : DState) (line : String) : DState × String × String :=
   | "topics" :: rest =>
     let (a, m, s) := Topics.handle st.topics rest
     ({ st with topics := a }, m, s)
+  | "broker" :: rest =>
+    let (a, m, s) := Broker.handle st.broker rest
+    ({ st with broker := a }, m, s)
   | [] => (st, "", "")
   | _ => (st, "bad-core", "bad-core")
 
